@@ -80,7 +80,24 @@ def gen_trace_program(rng):
         uid += 1
         k = rng.below(3)
         body_stmt = stmt if callee is None else callee + ";"
-        if k == 0:
+        if callee is None and rng.chance(1, 3):
+            # the failing statement sits in a try block that has only a finally: the finally runs, the error stays uncaught and the
+            # entry of this call must still name the line of the failing statement (not the end of the try statement)
+            name = "f%d" % uid
+            emit("fn %s() {" % name)
+            emit("    var pad%d = %d;" % (uid, uid))
+            emit("    try {")
+            emit("        pad%d = pad%d + 1;" % (uid, uid))
+            ln = emit("        " + body_stmt)
+            emit("        pad%d = pad%d + 1;" % (uid, uid))
+            emit("    } finally {")
+            emit("        pad%d = pad%d + 10;" % (uid, uid))
+            emit("    }")
+            emit("    return pad%d;" % uid)
+            emit("}")
+            frames.append(("%s()" % name, ln))
+            callee = "%s()" % name
+        elif k == 0:
             name = "f%d" % uid
             emit("fn %s() {" % name)
             emit("    var pad%d = %d;" % (uid, uid))
@@ -183,7 +200,14 @@ def correspondence(ctx, model_ok=True):
     failures = []
     broken = []
     n_tr = 1500 if ctx.thorough else 300
-    cases = [gen_trace_program(rng.fork("t%d" % i)) for i in range(n_tr)]
+    cases = []
+    cdir = os.path.join(vlib.VERIF, "corpus", "C17")
+    for fn in sorted(os.listdir(cdir)) if os.path.isdir(cdir) else []:      # minimised past failures run first
+        j = json.load(open(os.path.join(cdir, fn)))
+        if "expected_trace" in j:
+            cases.append((j["program"], j.get("modules", {}), j["expected_kind"], j.get("expected_first"), j["expected_trace"]))
+    n_corpus = len(cases)
+    cases += [gen_trace_program(rng.fork("t%d" % i)) for i in range(n_tr)]
     plist = [("trace%d" % i, c[0], c[1]) for i, c in enumerate(cases)]
     nontrivial = set()
     kinds_seen = {}
@@ -255,7 +279,7 @@ def correspondence(ctx, model_ok=True):
                 "plus host-native errors and %d single-fault compile-error injections with known line" % len(cat),
         "samples": [cases[0][0], cases[0][4]],
         "error_kinds": kinds_seen, "trace_depths": depth_seen,
-        "programs": n_tr + len(host) + len(cat),
+        "programs": n_tr + n_corpus + len(host) + len(cat), "corpus_replays": n_corpus,
     }
     return {"failures": dedupe(failures), "coverage": cov, "broken": broken}
 
